@@ -242,8 +242,6 @@ Proof. exists [[97; 32; 98]]. split; [vm_compute; reflexivity|]. vm_compute. dis
 
 (* ------------------------------------------------------------------ *)
 (* String *)
-Definition string_dom (v : str) : bool := needs_quoting v || negb (both_quoted v).
-
 Section StringRT.
 Hypothesis eval_repr : forall s, vstr s = true -> py_eval (py_repr s) = Ok s.
 
@@ -275,36 +273,30 @@ Proof.
   - rewrite Hq. rewrite eval_repr by exact H. reflexivity.
 Qed.
 
-(* what String.set makes of the text String.__str__ wrote *)
-Lemma string_roundtrip_on_domain : forall v,
-  vstr v = true -> string_dom v = true -> string_parse (string_str v) = Ok v.
+(* what String.set makes of the text String.__str__ wrote: every value comes back *)
+Lemma needs_quoting_false v : needs_quoting v = false -> both_quoted v = false.
+Proof. unfold needs_quoting. destruct (both_quoted v); [discriminate|reflexivity]. Qed.
+
+Lemma string_roundtrip : forall v, vstr v = true -> string_parse (string_str v) = Ok v.
 Proof.
-  intros v Hv Hd. unfold string_str. unfold string_dom in Hd.
-  destruct (needs_quoting v).
+  intros v Hv. unfold string_str. destruct (needs_quoting v) eqn:E.
   - apply string_parse_repr. exact Hv.
-  - cbn [orb] in Hd. apply string_parse_plain; [exact Hv|]. destruct (both_quoted v); [discriminate|reflexivity].
+  - apply string_parse_plain; [exact Hv|]. apply needs_quoting_false. exact E.
 Qed.
 
-Lemma string_set_roundtrip_on_domain : forall v cur oks,
-  vstr v = true -> string_dom v = true -> hd_ok oks = true ->
+Lemma string_set_roundtrip : forall v cur oks,
+  vstr v = true -> hd_ok oks = true ->
   set_text KString cur oks (str_of KString (PS v)) = Ok (PS v).
 Proof.
-  intros v cur oks Hv Hd Ho. unfold set_text. cbn [str_of].
-  rewrite string_roundtrip_on_domain by assumption. cbn [bind]. unfold set_value. rewrite Ho. reflexivity.
+  intros v cur oks Hv Ho. unfold set_text. cbn [str_of].
+  rewrite string_roundtrip by assumption. cbn [bind]. unfold set_value. rewrite Ho. reflexivity.
 Qed.
 End StringRT.
 
-(* the one-character value DQ is written bare and rejected when read back; DQ a DQ comes back as a *)
-Lemma string_roundtrip_refuted :
-  exists v, vstr v = true /\ string_dom v = false /\ string_parse (string_str v) = Raise InvalidRegistryValue.
-Proof. exists [DQ]. repeat split; vm_compute; reflexivity. Qed.
-
-Lemma string_roundtrip_refuted_changed :
-  exists v w, vstr v = true /\ string_dom v = false /\ string_parse (string_str v) = Ok w /\ w <> v.
-Proof. exists [DQ; 97; DQ], [97]. repeat split; try (vm_compute; reflexivity). discriminate. Qed.
-
-Example string_dom_nonvacuous :
-  string_dom [DQ; 97] = true /\ string_dom [SP; DQ; 10; DQ; SP] = true /\ string_dom [SQ; 92; 58; 32; 35; 233] = true.
+(* the witnesses of the repaired defect F16: DQ and DQ a DQ are now written quoted *)
+Example string_str_quotes :
+  string_str [DQ] = [SQ; DQ; SQ] /\ string_str [DQ; 97; DQ] = [SQ; DQ; 97; DQ; SQ] /\
+  string_parse (string_str [DQ]) = Ok [DQ] /\ string_parse (string_str [SQ; 97; SQ]) = Ok [SQ; 97; SQ].
 Proof. vm_compute. repeat split. Qed.
 
 (* a rejected text never yields a value: in the model a node's value changes only through the
